@@ -666,3 +666,146 @@ pub fn run(seed: u64, n: u64, thorough: bool, corpus: &[String], dir: &str) {
     }
     out.finish(dir);
 }
+
+// ------------------------------------------------------------------------------------------
+// C12: a peer close arriving while session frames are queued behind a blocked transport
+// ------------------------------------------------------------------------------------------
+
+/// `lifeq n=<k> pipe=<bytes> size=<payload>`: a sender with credit sends k pre-settled messages while the peer does not
+/// read (the pipe fills up, frames queue in the connection's channel); the peer then writes a close and only
+/// then starts reading.  Returns the wire tokens after the prelude and what the handles report.
+pub fn run_flush_case(line: &str) -> String {
+    let w: Vec<&str> = line.split_whitespace().collect();
+    let get = |k: &str| -> usize { w.iter().find_map(|x| x.strip_prefix(k)).and_then(|v| v.parse().ok()).unwrap_or(0) };
+    let (n, pipe, size) = (get("n="), get("pipe=").max(64), get("size=").max(1));
+    paused_rt().block_on(async move {
+        let (a, b) = tokio::io::duplex(pipe);
+        let mut peer = Peer::new(b);
+        let open_task = tokio::spawn(async move { Connection::builder().container_id("c").max_frame_size(4096u32).open_with_stream(a).await });
+        // the prelude needs the peer to read: drain after every step
+        for _ in 0..4 {
+            barrier().await;
+            let _ = peer.drain().await;
+        }
+        peer.write(&AMQP_HEADER).await;
+        peer.write(&frame_bytes(0, &peer_open(None, 10, 4096), &[])).await;
+        for _ in 0..4 {
+            barrier().await;
+            let _ = peer.drain().await;
+        }
+        let mut conn = match open_task.await {
+            Ok(Ok(c)) => c,
+            _ => return "PRELUDE-FAILED open".to_string(),
+        };
+        let bt = tokio::spawn(async move {
+            let r = Session::begin(&mut conn).await;
+            (conn, r)
+        });
+        for _ in 0..4 {
+            barrier().await;
+            let _ = peer.drain().await;
+        }
+        peer.write(&frame_bytes(0, &peer_begin(Some(0)), &[])).await;
+        for _ in 0..4 {
+            barrier().await;
+            let _ = peer.drain().await;
+        }
+        let (mut conn, mut session) = match bt.await {
+            Ok((c, Ok(s))) => (c, s),
+            _ => return "PRELUDE-FAILED begin".to_string(),
+        };
+        let at = tokio::spawn(async move {
+            let r = Sender::builder().name("s").target("q").sender_settle_mode(SenderSettleMode::Settled).attach(&mut session).await;
+            (session, r)
+        });
+        for _ in 0..4 {
+            barrier().await;
+            let _ = peer.drain().await;
+        }
+        peer.write(&frame_bytes(0, &peer_attach_receiver("s"), &[])).await;
+        peer.write(&frame_bytes(0, &peer_link_flow(PEER_HANDLE, 1000), &[])).await;
+        for _ in 0..4 {
+            barrier().await;
+            let _ = peer.drain().await;
+        }
+        let (_session, mut sender) = match at.await {
+            Ok((s, Ok(l))) => (s, l),
+            _ => return "PRELUDE-FAILED attach".to_string(),
+        };
+        // the peer stops reading; k sends
+        let sends = tokio::spawn(async move {
+            let mut ok = 0;
+            for _ in 0..n {
+                if sender.send("x".repeat(size)).await.is_ok() {
+                    ok += 1;
+                }
+            }
+            (sender, ok)
+        });
+        for _ in 0..6 {
+            barrier().await;
+        }
+        // the peer closes, then reads
+        peer.write(&frame_bytes(0, &crate::c12::peer_close(false), &[])).await;
+        let mut toks: Vec<String> = Vec::new();
+        for _ in 0..40 {
+            barrier().await;
+            let ws = peer.drain().await;
+            if !ws.is_empty() {
+                toks.push(tokens(&ws));
+            }
+        }
+        let r = tokio::time::timeout(std::time::Duration::from_millis(50), conn.on_close()).await;
+        let res = match r {
+            Ok(Ok(())) => "ok".to_string(),
+            Ok(Err(e)) => variant(&format!("{:?}", e)),
+            Err(_) => "PENDING".to_string(),
+        };
+        let sent = if sends.is_finished() { sends.await.map(|(_, k)| k.to_string()).unwrap_or("PANIC".into()) } else { "PENDING".to_string() };
+        format!("{} # conn={} sends_ok={} eof={}", toks.join(","), res, sent, peer.eof as u8)
+    })
+}
+
+pub fn flush_oracle(trace: &str) -> Vec<String> {
+    let mut v = Vec::new();
+    let wire = trace.split('#').next().unwrap_or("").trim();
+    let toks: Vec<&str> = wire.split(',').filter(|t| !t.is_empty()).collect();
+    if let Some(p) = toks.iter().position(|t| t.starts_with('C')) {
+        if p + 1 != toks.len() {
+            v.push(format!("c12-after-close: {} written after the close", toks[p + 1..].join(",")));
+        }
+    } else {
+        v.push("c12-close-unanswered: the peer's close was not answered with a close".to_string());
+    }
+    if !trace.contains("conn=RemoteClosed") {
+        v.push(format!("c12-peer-close-misreported: after the peer's clean close the handle reports {}", trace.split('#').nth(1).unwrap_or("")));
+    }
+    v
+}
+
+pub fn run_flush(dir: &str) {
+    crate::codec::quiet_panics();
+    let mut out = Outputs::new(dir);
+    for n in [1usize, 2, 3, 5, 8, 13] {
+        for pipe in [64usize, 128, 256, 1024] {
+            for size in [10usize, 100, 700] {
+                let line = format!("lifeq n={} pipe={} size={}", n, pipe, size);
+                let t = match std::panic::catch_unwind(|| run_flush_case(&line)) {
+                    Ok(t) => t,
+                    Err(_) => "HARNESS-PANIC".to_string(),
+                };
+                let frames = t.matches('T').count();
+                out.add("transfer_frames_flushed", frames as u64);
+                if frames >= 1 {
+                    out.nontrivial(&line);
+                }
+                for vv in flush_oracle(&t) {
+                    let class = vv.split(':').next().unwrap_or("?").to_string();
+                    out.violation(&class, &format!("{} | `{}` -> {}", vv, line, t), &line);
+                }
+                out.case(&line, &t);
+            }
+        }
+    }
+    out.finish(dir);
+}
